@@ -283,6 +283,53 @@ func init() {
 			Teardown: func() { tr.Shutdown(ctx) },
 		}
 	})
+	// a pin that fails while its status is being read: an error status always
+	// comes with its error message (a result is never half-updated)
+	register("tracker-pin-fails-status-read", 2, 2, func(t *testing.T) *e1.Exec {
+		ctx := context.Background()
+		c := clus.Cid("a")
+		sh := clus.NewShared(nil)
+		model := clus.NewIPFS()
+		model.Decide = func(call *clus.Call) clus.Action {
+			if call.Kind == "pin" {
+				return clus.Fail
+			}
+			return clus.Apply
+		}
+		tr := newTracker(model, sh.State, 10)
+		pin := everywhere(c)
+		var torn []string
+		look := func(where string, pi *api.PinInfo) {
+			if pi == nil {
+				return
+			}
+			if pi.Status.Match(api.TrackerStatusError) && pi.Error == "" {
+				torn = append(torn, fmt.Sprintf("%s: status %s with an empty error message", where, pi.Status))
+			}
+		}
+		return &e1.Exec{
+			Threads: map[string]func(){
+				"T0": func() { sh.State.Add(ctx, pin); tr.Track(ctx, pin) },
+				"T1": func() {
+					look("Status", tr.Status(ctx, c))
+					for _, pi := range tr.StatusAll(ctx, api.TrackerStatusUndefined) {
+						look("StatusAll", pi)
+					}
+					look("Status", tr.Status(ctx, c))
+				},
+			},
+			After: func(runErr error) (string, []e1.Finding) {
+				quiesce()
+				var fs []e1.Finding
+				for _, x := range torn {
+					fs = append(fs, e1.Finding{Key: "status-torn", Detail: x})
+				}
+				pi := tr.Status(ctx, c)
+				return fmt.Sprintf("final=%v err=%v", pi.Status, pi.Error != ""), fs
+			},
+			Teardown: func() { tr.Shutdown(ctx) },
+		}
+	})
 	registerND("tracker-track-shutdown", 2, 3, func(t *testing.T) *e1.Exec {
 		ctx := context.Background()
 		c := clus.Cid("a")
